@@ -60,6 +60,9 @@ inductive WOp where
   | join (otherId : Bytes) (size : Int)
   /-- `SetIdentity` -/
   | setIdentity (clockId : Bytes)
+  /-- the locked part of a `Join` one of whose candidates is refused (access controller, signature):
+      the error outcome, the log is left as it is -/
+  | refuse
 deriving Repr, DecidableEq, Inhabited
 
 inductive Instr where
@@ -131,6 +134,7 @@ def applyW (op : WOp) (r : Regs) (l : Log) : Log × Regs :=
     | .ok l' => (l', r)
     | .err => (l, { r with failed := true })
   | .setIdentity cid => (setIdentity l cid, r)
+  | .refuse => (l, { r with failed := true })
 
 def seenOf (l : Log) : Seen := { entries := l.entries, heads := l.heads, values := values l }
 
@@ -258,6 +262,13 @@ def joinProg (dst src : Lid) (srcId : Bytes) (size : Int) : List Instr :=
    .rlock src, .readHeads src, .runlock src, .hook .joinHeadsRead,
    .rlock src, .readEntries src, .runlock src, .hook .joinEntriesRead,
    .lock dst, .hook .joinLocked, .hook .joinPublish, .write dst (.join srcId size), .unlock dst]
+
+/-- a refused `Join`: the same reads and the own write lock, then the error return before the publish point -/
+def joinRefusedProg (dst src : Lid) : List Instr :=
+  [.hook .opStart, .hook .joinEnter,
+   .rlock src, .readHeads src, .runlock src, .hook .joinHeadsRead,
+   .rlock src, .readEntries src, .runlock src, .hook .joinEntriesRead,
+   .lock dst, .hook .joinLocked, .write dst .refuse, .unlock dst]
 
 /-- `Join` with itself or with a log of another id: returns before touching any lock -/
 def joinNoopProg : List Instr := [.hook .opStart]
